@@ -87,8 +87,13 @@ Definition c01_check_entry (l : list Z) : list Z :=
    routine returned (-1 | len n1..). The checker validates that path (C15), recomputes the call on the
    model with that path and compares the whole segment (verdict, evaluated causaloids in order with
    their observations, activation of every causaloid). *)
+(* the graph is built by inserting the edges in list order; an insertion of an edge that already exists is rejected and
+   changes nothing (add_edge / add_edge_with_weight of the graph store, C08), so the FIRST occurrence of a pair decides its weight *)
+Definition first_wins (edges : list ((nat * nat) * N)) : list ((nat * nat) * N) :=
+  fold_left (fun acc e => if emem (fst e) acc then acc else acc ++ [e]) edges [].
+
 Definition sgraph_of (nodes : list causal) (edges : list ((nat * nat) * N)) : sgraph :=
-  mkSG (map (fun i => (i, 0%Z)) (seq 0 (length nodes))) edges None.
+  mkSG (map (fun i => (i, 0%Z)) (seq 0 (length nodes))) (first_wins edges) None.
 
 Fixpoint c10_check_calls (top : causal) (cs : list call) (out : list Z) (s : state) (i : Z) (fuel : nat) : list Z :=
   match fuel with
